@@ -168,6 +168,8 @@ func (wd *c14World) build(a c14Ans, c *c14Cert, now time.Time) []byte {
 	serial := c.leaf.SerialNumber
 	if a.Serial == "other" {
 		serial = new(big.Int).Add(serial, big.NewInt(1000000))
+	} else if a.Serial == "lower" {
+		serial = new(big.Int).Sub(serial, big.NewInt(7))
 	}
 	ca := wd.ca
 	var dg *doubles.OCSPDelegate
@@ -408,6 +410,7 @@ var c14Stored = map[string]*c14Ans{
 	"corrupt-empty":      {Kind: "empty"},
 	"corrupt-trylater":   {Kind: "tryLater"},
 	"fresh-other-serial": {Kind: "resp", Status: ocsp.Good, Serial: "other", This: "recent", Next: "week", Signer: "ca"},
+	"fresh-lower-serial": {Kind: "resp", Status: ocsp.Good, Serial: "lower", This: "recent", Next: "week", Signer: "ca"},
 	"fresh-revoked":      {Kind: "resp", Status: ocsp.Revoked, Serial: "right", This: "recent", Next: "week", Signer: "ca"},
 	"fresh-unknown":      {Kind: "resp", Status: ocsp.Unknown, Serial: "right", This: "recent", Next: "week", Signer: "ca"},
 	"future":             {Kind: "resp", Status: ocsp.Good, Serial: "right", This: "soon", Next: "week", Signer: "ca"},
@@ -431,7 +434,7 @@ func c14Class(in c14CallIn) string {
 	}
 	if in.Stored == "absent" && a.Kind == "resp" && a.Status == ocsp.Good && a.Signer == "ca" && in.Flavor == "normal" && !in.Disabled {
 		switch {
-		case a.Serial == "other" && a.This == "recent" && a.Next == "week":
+		case (a.Serial == "other" || a.Serial == "lower") && a.This == "recent" && a.Next == "week":
 			return "good-other-serial"
 		case a.Serial == "right" && a.This == "old" && a.Next == "past":
 			return "good-expired"
@@ -783,13 +786,16 @@ func (wd *c14World) runHist(plan c14Plan, desc map[string]any) {
 			}
 			h.b.Log.Hook = nil
 			if err != nil {
-				if c.managed {
+				_, hasKey := h.b.Get(certmagic.StorageKeys.SitePrivateKey(h.iss.IssuerKey(), c.name))
+				if c.managed && (!hasKey || h.storedCertFor(c.name) == nil) {
 					// nothing loadable in storage for the name (e.g. its key was moved away after a
 					// key-compromise revocation that could not be replaced): not an OCSP matter
 					wd.w.Hist("hist.cache.managed-not-loadable")
 					continue
 				}
-				panic(fmt.Sprint("cache op failed: ", err))
+				// otherwise the failure is an observation: the certificate is not in the cache, which
+				// the monitor (S2: caching never fails because of OCSP) will report
+				wd.w.Hist("hist.cache.FAILED")
 			}
 			se.Int(1).Int(c.idx).Bool(c.managed).Bool(op.Disabled)
 			encEnv(se, ev)
@@ -1025,7 +1031,7 @@ func (wd *c14World) randAns(r *rand.Rand) c14Ans {
 	}
 	a := c14Ans{Kind: "resp", Status: []int{ocsp.Good, ocsp.Good, ocsp.Good, ocsp.Revoked, ocsp.Unknown}[r.Intn(5)], Serial: "right", Signer: "ca"}
 	if r.Intn(6) == 0 {
-		a.Serial = "other"
+		a.Serial = []string{"other", "lower"}[r.Intn(2)]
 	}
 	switch r.Intn(8) {
 	case 0:
@@ -1100,8 +1106,17 @@ func (wd *c14World) randPlan(r *rand.Rand) c14Plan {
 			p.Ops = append(p.Ops, c14HOp{Op: "tamper", Cert: i, Stored: storedKeys[r.Intn(len(storedKeys))]})
 		}
 		a := ans()
-		if r.Intn(2) == 0 {
+		// mostly responses that are accepted now; often past the middle of their validity period so
+		// that the next maintenance pass refreshes them
+		switch k := r.Intn(20); {
+		case k < 7:
+			a[fmt.Sprint(i)] = c14Ans{Kind: "resp", Status: ocsp.Good, Serial: "right", This: "old", Next: []string{"plus6h", "plus1h"}[r.Intn(2)], Signer: "ca"}
+		case k < 11:
 			a[fmt.Sprint(i)] = goodAns()
+		case k < 13:
+			a[fmt.Sprint(i)] = c14Ans{Kind: "resp", Status: ocsp.Unknown, Serial: "right", This: "recent", Next: "week", Signer: "ca"}
+		case k < 15 && p.Certs[i].Managed:
+			a[fmt.Sprint(i)] = revokedAns([]int{0, 1}[r.Intn(2)])
 		}
 		p.Ops = append(p.Ops, c14HOp{Op: "cache", Cert: i, Ans: a, Faults: faults(), Disabled: r.Intn(15) == 0})
 	}
@@ -1197,6 +1212,7 @@ func runC14(tier string, seed int64, outdir string, replay string) error {
 		{Kind: "resp", Status: ocsp.Good, Serial: "other", This: "recent", Next: "week", Signer: "ca"},
 		{Kind: "resp", Status: ocsp.Good, Serial: "right", This: "old", Next: "past", Signer: "ca"},
 		{Kind: "resp", Status: ocsp.Good, Serial: "right", This: "soon", Next: "week", Signer: "ca"},
+		{Kind: "resp", Status: ocsp.Good, Serial: "lower", This: "recent", Next: "week", Signer: "ca"},
 	} {
 		wd.runCall(c14CallIn{Flavor: "normal", Stored: "absent", Ans: a})
 	}
@@ -1237,9 +1253,9 @@ func runC14(tier string, seed int64, outdir string, replay string) error {
 		c14HOp{Op: "maintain", Ans: one(goodAns()), Renew: "fail"}), map[string]any{"class": "outage-then-recovery"})
 
 	// ---- exhaustive: every response shape against a fresh certificate without persisted staple ----
-	nCalls, nHist := 260, 110
+	nCalls, nHist := 500, 260
 	if tier == "thorough" {
-		nCalls, nHist = 3000, 1200
+		nCalls, nHist = 8000, 4000
 	}
 	thisSet, nextSet := c14This, c14Next
 	count := 0
